@@ -94,6 +94,14 @@ OUT_OF_FAMILY = {
 }
 
 
+def is_store_insert_panic(s):
+    """The explicit panic of the expression registries for a Named (not Known) item: in whichever method of
+    FunctionsStore / ParametersStore the insertion is written."""
+    b = s['body']
+    owner = (b.impl_self or '').split('<')[0].split('::')[-1]
+    return s['cls'] == 'panic' and owner in ('FunctionsStore', 'ParametersStore') and (s.get('span') or {}).get('mac') in ('panic', 'unreachable', 'todo', 'unimplemented', None, '')
+
+
 def fn_role(b):
     if b.dk == 'Closure':
         # name of the enclosing function
@@ -662,6 +670,8 @@ class Ledger:
         return self._sub['attwho']
 
     def out_of_family(self, s):
+        if is_store_insert_panic(s):
+            return ('OUT-OF-FAMILY', OUT_OF_FAMILY[('_insert', 'panic')])
         role = fn_role(s['body'])
         k = (role, s['cls'])
         if k in OUT_OF_FAMILY:
